@@ -434,19 +434,20 @@ TREE_MUTATIONS = ["unknown_tag", "ext_not_allowed", "ext_existing_term", "requir
                   "duplicate_group", "taggroup_tag_at_top", "toplevel_group_nested", "definition_in_string",
                   "unique_twice", "empty_group", "onset_extra_group", "onset_no_def", "offset_with_group",
                   "duration_two_groups", "ext_bad_char", "toplevel_group_nested_twin",
-                  "duplicate_among_same_base", "two_toplevel_tags_in_group", "empty_group_twice", "def_value_bad_char"]
+                  "duplicate_among_same_base", "two_toplevel_tags_in_group", "empty_group_twice", "def_value_bad_char",
+                  "def_value_wrong_class"]
 TEXT_MUTATIONS = ["paren_extra_open", "paren_extra_close", "paren_removed", "paren_wrong_order", "double_comma",
                   "leading_comma", "trailing_comma", "comma_missing_before_group", "comma_missing_after_group",
                   "forbidden_char"]
 
 
-def _name_class_defs(defs, m):
+def _name_class_defs(defs, m, value_class="nameClass"):
     out = []
     for d in defs:
         if d["takes"]:
             ph = [c for c in flatten(d["content"]) if c.get("kind") == "placeholder"][0]
             node = m.by_long[ph["node"].casefold()]
-            if m.node_value_classes(node) == ["nameClass"] and not m.node_unit_classes(node):
+            if m.node_value_classes(node) == [value_class] and not m.node_unit_classes(node):
                 out.append(d)
     return out
 
@@ -525,6 +526,8 @@ def mutated(draw, ann, kinds=None, start=0):
             ok = any(not d["takes"] for d in defs)
         elif k == "def_value_bad_char":
             ok = bool(_name_class_defs(defs, m))
+        elif k == "def_value_wrong_class":
+            ok = bool(_name_class_defs(defs, m, "numericClass"))
         elif k == "defexpand_altered":
             ok = bool(defs) and pl.has["def-expand"]
         elif k == "duplicate_tag":
@@ -633,6 +636,12 @@ def mutated(draw, ann, kinds=None, start=0):
     elif kind == "def_value_extra":
         d = pick([d for d in defs if not d["takes"]])
         _insert_somewhere(draw, tree, make_tag(f"Def/{d['name']}/3", "bad", kind="bad"))
+        expect = "DEF_INVALID"
+    elif kind == "def_value_wrong_class":
+        # a Def whose value is not of the class its placeholder node takes: a wrongly valued Def
+        d = pick(_name_class_defs(defs, m, "numericClass"))
+        _insert_somewhere(draw, tree, make_tag(f"Def/{d['name']}/{draw(st.sampled_from(['abc', 'x1y', 'one']))}", "bad",
+                                               kind="bad"))
         expect = "DEF_INVALID"
     elif kind == "def_value_bad_char":
         # the value of a Def tag whose placeholder sits on a name-class node holds a character names may not have
